@@ -650,7 +650,6 @@ static int callFft(const FftCase& c, int seed, Cols& out)
 }
 static void runFft(const FftCase& c, Ctx& ctx)
 {
-  struct Tm { clock_t t0 = clock(); const FftCase& c; ~Tm() { if (getenv("VERIF_TIMING")) diag(fmt("T %.3f ndim=%d nt=%d range=%.3g dx0=%.3g nbsimu=%d alias=%d pct=%g", (double)(clock() - t0) / CLOCKS_PER_SEC, c.T.ndim, c.T.n(), c.strucs[0].range, c.T.dx[0], c.nbsimu, c.aliasing, c.percent)); } } tm{clock(), c};
   resetGlobals(c.T.ndim);
   ctx.label(fmt("ndim:%d", c.T.ndim));
   ctx.label(c.nbsimu > 1 ? "nbsimu:>1" : "nbsimu:1");
@@ -774,7 +773,6 @@ static int callSpde(const SpdeCase& c, int seed, Cols& out)
 }
 static void runSpde(const SpdeCase& c, Ctx& ctx)
 {
-  struct Tm { clock_t t0 = clock(); const SpdeCase& c; ~Tm() { if (getenv("VERIF_TIMING")) diag(fmt("T %.3f chol=%d user=%d cond=%d nt=%d refine=%d border=%d range/L=%.2f nbsimu=%d", (double)(clock() - t0) / CLOCKS_PER_SEC, c.cholesky, c.userMesh, c.cond, c.T.n(), c.refine, c.border, c.strucs[0].range / c.T.extent(), c.nbsimu)); } } tm{clock(), c};
   resetGlobals(c.T.ndim);
   ctx.label(c.cond ? "cond" : "noncond");
   ctx.label(c.cholesky ? "solver:cholesky" : "solver:chebyshev");
